@@ -110,7 +110,7 @@ def post_check(acc, res, case):
     return False
 
 
-PLAN = e1prop.Plan('C04', ROWS, cfgs=('v6', 'v7', 'v5', 'v4', 'v7-virt'), classify=classify, nontrivial=nontrivial, case_kw=case_kw, tweak_word=to_pc, tweak_case=aim)
+PLAN = e1prop.Plan('C04', ROWS, cfgs=('v6', 'v7', 'v5', 'v4', 'v7-virt', 'v7-jz'), classify=classify, nontrivial=nontrivial, case_kw=case_kw, tweak_word=to_pc, tweak_case=aim)
 
 
 def run(ctx):
